@@ -59,6 +59,8 @@ int g_run = 0;
 std::int64_t g_val[NCYC], g_delta[NCYC], g_tsched[MAXE], g_val2[NCYC], g_delta2[NCYC];
 std::int64_t g_throwT[MAXE], g_throwS[NCYC];   // symbolic 0/1
 bool g_thrownT[MAXE], g_thrownS[NCYC];         // what actually happened in run 0 (concrete)
+DateTime g_pendT[2] = {MIN_DT, MIN_DT};        // latest wake-up time T asked its scheduler for (per run)
+bool g_threw_with_pending_wakeup = false;      // run 0: T threw while a wake-up it requested in an EARLIER evaluation was still ahead
 int g_kmask[NCYC];                             // MODE 2: which keys the keyed source updates in cycle c (bit k), concrete
 std::int64_t g_kval[NCYC][2], g_throwK[2][NCYC];
 bool g_thrownK[2][NCYC];
@@ -82,9 +84,11 @@ struct T {
         n.set(k + 1);
         Stream &ev = g_s[g_run][ST_TEVAL];
         ev.add(now, k);
-        if (k < TSCHED && g_tsched[k] > 0) s.schedule(TimeDelta{g_tsched[k]});
+        DateTime pending_before = g_pendT[g_run];
+        if (k < TSCHED && g_tsched[k] > 0) { s.schedule(TimeDelta{g_tsched[k]}); g_pendT[g_run] = now + TimeDelta{g_tsched[k]}; }
         if (g_run == 0 && k < MAXE && g_throwT[k] != 0) {
             g_thrownT[k] = true;
+            g_threw_with_pending_wakeup |= (pending_before > now);
             g_s[0][ST_THROWN].add(now, k);
             throw std::runtime_error(std::string("boomT") + char('0' + k));
         }
@@ -366,8 +370,11 @@ extern "C" int harness_main() {
     verif_assert(same_stream(g_s[0][ST_IND], g_s[1][ST_IND]), "C15.independent_stream_identical_to_twin");
     verif_assert(g_s[1][ST_IND].n == NCYC, "C15.twin_independent_stream_complete");
     // evaluated normally again (and the scheduler still re-arms): same evaluation times as the twin
+    // The case "T throws on an input-driven evaluation while a wake-up it requested earlier is still pending" has its own id
+    // (same check), so that the fate of that pending wake-up can be told apart from everything else.
     bool same_evals = same_stream(g_s[0][ST_TEVAL], g_s[1][ST_TEVAL]);
-    verif_assert(same_evals, "C15.failing_node_evaluated_at_same_times_as_twin");
+    verif_assert(same_evals | g_threw_with_pending_wakeup, "C15.failing_node_evaluated_at_same_times_as_twin");
+    verif_assert(same_evals | !g_threw_with_pending_wakeup, "C15.pending_wakeup_survives_captured_failure");
     verif_assert(same_stream(g_s[0][ST_SEVAL], g_s[1][ST_SEVAL]), "C15.failing_source_rearms_like_twin");
     verif_assert(same_stream(g_s[0][ST_PRE], g_s[1][ST_PRE]), "C15.wrapped_graph_upstream_node_evaluated_like_twin");
     verif_assert(!same_evals | dependent_ok(g_s[0][ST_DEP], g_s[1][ST_DEP], g_s[1][ST_TEVAL], g_thrownT, MAXE), "C15.output_equals_twin_when_not_throwing");
@@ -407,6 +414,7 @@ extern "C" int harness_main() {
     if (consecutive) verif_reach("throw_in_consecutive_evaluations");
     if (recovered) verif_reach("normal_evaluation_after_throw");
     if (g_s[1][ST_TEVAL].n > NCYC) verif_reach("thrower_woken_by_own_schedule");
+    if (g_threw_with_pending_wakeup) verif_reach("throw_while_own_wakeup_pending");
     if (nthrow >= 1 && nthrow2 >= 1) verif_reach("two_nodes_throw");
     bool same_cycle = false;
     for (int i = 0; i < nthrow; i++)
